@@ -483,22 +483,37 @@ pub fn run(tier: Tier, seed: u64) -> i32 {
             items.push((api, slot));
         }
     }
-    tot.merge(fw::run_items("C12", &items, |(a, _)| a.name().to_string(), |(api, slot), cx| sweep_mutations(api, *slot, tier, seed, cx)));
+    // VERIF_C12_PARTS=a,b,d,e,f,g restricts the sweeps (used by ./check for the debug-assertions variant of the quick tier)
+    let parts = std::env::var("VERIF_C12_PARTS").unwrap_or_default();
+    let on = |p: &str| parts.is_empty() || parts.split(',').any(|x| x == p);
+    if on("a") {
+        tot.merge(fw::run_items("C12", &items, |(a, _)| a.name().to_string(), |(api, slot), cx| sweep_mutations(api, *slot, tier, seed, cx)));
+    }
     let apis = all_apis();
-    tot.merge(fw::run_items("C12", &apis, |a| a.name().to_string(), |api, cx| sweep_foreign(api, seed, cx)));
-    tot.merge(fw::run_items("C12", &apis, |a| a.name().to_string(), |api, cx| sweep_lengths(api, seed, cx)));
-    tot.merge(fw::run_items("C12", &apis, |a| a.name().to_string(), |api, cx| sweep_keys(api, tier, seed, cx)));
+    if on("b") {
+        tot.merge(fw::run_items("C12", &apis, |a| a.name().to_string(), |api, cx| sweep_foreign(api, seed, cx)));
+    }
+    if on("d") {
+        tot.merge(fw::run_items("C12", &apis, |a| a.name().to_string(), |api, cx| sweep_lengths(api, seed, cx)));
+    }
+    if on("e") {
+        tot.merge(fw::run_items("C12", &apis, |a| a.name().to_string(), |api, cx| sweep_keys(api, tier, seed, cx)));
+    }
     let mut sitems = vec![];
     for api in all_apis() {
         for k in ALL_KINDS {
             sitems.push((api, k));
         }
     }
-    tot.merge(fw::run_items("C12", &sitems, |(a, _)| a.name().to_string(), |(api, k), cx| sweep_serde(api, *k, tier, seed, cx)));
+    if on("f") {
+        tot.merge(fw::run_items("C12", &sitems, |(a, _)| a.name().to_string(), |(api, k), cx| sweep_serde(api, *k, tier, seed, cx)));
+    }
     // last, with a lowered hang limit: degenerate generators
-    crate::api::HANG_LIMIT_OVERRIDE_MS.store(20_000, std::sync::atomic::Ordering::Relaxed);
-    tot.merge(fw::run_items("C12", &apis, |a| a.name().to_string(), |api, cx| sweep_degenerate(api, seed, cx)));
-    crate::api::HANG_LIMIT_OVERRIDE_MS.store(0, std::sync::atomic::Ordering::Relaxed);
+    if on("g") {
+        crate::api::HANG_LIMIT_OVERRIDE_MS.store(20_000, std::sync::atomic::Ordering::Relaxed);
+        tot.merge(fw::run_items("C12", &apis, |a| a.name().to_string(), |api, cx| sweep_degenerate(api, seed, cx)));
+        crate::api::HANG_LIMIT_OVERRIDE_MS.store(0, std::sync::atomic::Ordering::Relaxed);
+    }
     if tot.slow_calls > 0 {
         tot.machinery_errors.push(format!("{} call(s) exceeded the {} ms limit (max {} ms): re-run to confirm; a reproducible hang is a C12 violation", tot.slow_calls, crate::api::SLOW_MS, tot.max_call_ms));
     }
@@ -507,7 +522,7 @@ pub fn run(tier: Tier, seed: u64) -> i32 {
         tier,
         seed,
         rule: "complete enumeration of: all truncations, extensions by 1..8 and single-bit flips of each of 13 (step, artefact) slots fed to the consuming protocol step; 256 tape-derived strings per slot (to step and decoder); every artefact of another session/server and of every other suite fed to every slot where kind or length matches; 8 boundary lengths x every length-carrying parameter of every step; each call is one monitored transition".into(),
-        bounds: json!({"suites": 20, "slots": SLOTS.len(), "bit_flips": if tier.thorough() {"all 8 bits of every byte"} else {"bits 0 and 7 of every byte"}, "extensions": "1..8", "tape_strings_per_slot": 256, "lengths": [0, 1, 255, 256, 65535, 65536, 65537, 131072], "time_limit_ms_per_call": crate::api::SLOW_MS as u64}),
+        bounds: json!({"sweeps_run": if parts.is_empty() { "a,b,c,d,e,f,g (all)".to_string() } else { parts.clone() }, "debug_assertions": cfg!(debug_assertions), "suites": 20, "slots": SLOTS.len(), "bit_flips": if tier.thorough() {"all 8 bits of every byte"} else {"bits 0 and 7 of every byte"}, "extensions": "1..8", "tape_strings_per_slot": 256, "lengths": [0, 1, 255, 256, 65535, 65536, 65537, 131072], "time_limit_ms_per_call": crate::api::SLOW_MS as u64}),
         assumptions: vec!["panics are observed through catch_unwind around every API call; process aborts (stack overflow, OOM) would kill the check and surface as a machinery failure".into(), "Curve25519::hash_to_scalar is unimplemented!() but is a KeGroup trait method outside the API surface the property names; not exercised".into()],
         exhaustive: true,
         crosscheck: json!(null),
